@@ -389,6 +389,16 @@ def _val(n):
             return "{" + ",".join(sorted(f"{c(k)}:{c(v)}" for k, v in o.items())) + "}"
         if isinstance(o, (list, tuple)):
             return "[" + ",".join(c(x) for x in o) + "]"
+        if isinstance(o, float) and not isinstance(o, bool):
+            if o != o:
+                return "num:nan"
+            if o in (float("inf"), float("-inf")):
+                return f"num:{o!r}"
+            if o == int(o):
+                return f"num:{int(o)!r}"         # 1.0 and 1 (0.0 and -0.0) are the same datum for graphtage
+            return f"num:{o!r}"
+        if isinstance(o, int) and not isinstance(o, bool):
+            return f"num:{o!r}"
         return f"{type(o).__name__}:{o!r}"
     return c(o)
 
